@@ -47,7 +47,8 @@ def run(ctx):
                 continue
             # the value written (evaluate under the version: re-evaluate the write's operand with this ev)
             wb = w["bb"]
-            vt = ev.call_args(wb)[1]
+            wargs = ev.call_args(wb)
+            vt = wargs[0] if callee_name(ms.blocks[wb].term["fn"].get("path", "")).startswith("to_") else wargs[1]
             if tg == "RADI":
                 want = sp["versions"][v]["radius_value"]
                 vv = ev.resolve(vt)
